@@ -153,14 +153,23 @@ claim("C07",
            "size (cnt unchanged by a swap). The property is carried by contracts through the dispatcher _constraint_association, constraint_predictions, "
            "constraint_kmeans (invariant: live and best labels balanced; n_iter <= max_iter; data not written), ConstraintKMeans.fit (labels_ balanced, "
            "max_iter restored, n_iter_ <= max_iter, both kmeans0 settings) and ConstraintKMeans.predict (balanced predictions balanced; otherwise "
-           "KMeans.predict). The lemma schemas of cnt / sumI are proved in lemmas/Counting.lean (Lean 4 + Mathlib, run by the check). Bounded stand-in on "
-           "the real code: ALL k<=n<=12 (14), k<=5, both strategies, kmeans0 in {T,F}: exact sizes for fit and balanced predict, label validity, n_iter_, "
-           "finite centres, nearest-centre predict.",
-      note="Strategy 'gain': _constraint_association_gain is an ASSUMED contract with no size claim - known finding: unbalanced when n mod k >= 2 (bounded "
-           "stand-in pins the witness). numpy.argsort / min / max / random.permutation / euclidean_distances / KMeans.fit are assumed models; termination "
+           "KMeans.predict). Strategy 'gain' / 'gain_p': _constraint_association_gain - its five real loops, the transfer lists abstracted as sets of listed "
+           "points - keeps 'counters[c] = cnt(labels,c,n)', 'sum(counters) = n' and 'a listed point not flagged as moved is still in the cluster it wants to "
+           "leave' through every move and every swap, so that on normal return (the function ends by asserting that no counter is below the quota) every "
+           "cluster holds at least floor(n/k) and at most floor(n/k) + (n mod k) points: exactly the property when n mod k <= 1; carried through the "
+           "dispatcher, constraint_predictions, constraint_kmeans, fit and predict as for 'distance'. linearize_matrix (dense) is proved to give row and "
+           "column numbers within the matrix. The lemma schemas of cnt / sumI and the integer-product steps are proved in lemmas/Counting.lean (Lean 4 + "
+           "Mathlib, run by the check). Bounded stand-in on the real code: ALL k<=n<=12 (14), k<=5, both strategies, kmeans0 in {T,F}: exact sizes for fit "
+           "and balanced predict, label validity, n_iter_, finite centres, nearest-centre predict; 'gain' with n mod k <= 1 and 1..3 iterations on 240 (2400) "
+           "random sets; the proved invariant of the 'gain' association observed natively (sys.settrace) at every iteration of its main loop on 40 (400) runs.",
+      note="Strategy 'gain' with n mod k >= 2 is a known finding (sizes exceed ceil(n/k); the proof gives the bound floor(n/k) + n mod k), and the final "
+           "assertion of the 'gain' association can fire (second known finding, about 1 fit in 300 from unbalanced initial labels): the 'gain' guarantee is "
+           "partial correctness - on normal return. The transfer lists are an over-approximating abstraction (set of listed points per key; order and gains not "
+           "modelled). numpy.argsort / argmin / min / max / random.permutation / euclidean_distances / KMeans.fit are assumed models; termination "
            "of the association loops is not proved; integers are mathematical.",
       technique="deductive verification (weakest-precondition style VC generation from the real source, loop invariants over ghost counting functions, z3 "
-                "4.8.12/5.1) with Lean-checked lemma schemas; bounded enumeration as a labelled stand-in for strategy 'gain' and the end-to-end fit")
+                "4.8.12/5.1) with Lean-checked lemma schemas; bounded enumeration as a labelled stand-in for the end-to-end fit and for strategy 'gain' "
+                "outside what is proved")
 claim("C04",
       text="Proof: (1) the prediction methods under contract (PiecewiseRegressor.predict, PiecewiseClassifier.predict/predict_proba, the decision-tree-of-"
            "classifiers node methods, SkBaseTransformLearner.transform, TransferTransformer.transform, IntervalRegressor.predict_all) all have a row-wise "
@@ -283,3 +292,13 @@ amend("C08", text="_mapping_train is proved for the discretizer binner too (thre
                   "size): every training row gets the number of its cell, numbers 0..len-1 without repetition, one bucket per cell that holds a training row.")
 amend("C10", text="fit_improve is proved for what its caller relies on (the probabilities returned are those of the node's classifier as it is at return); "
                   "no assumed in-repo step is left in C10.")
+
+
+# ---- amendments after the fifth round of seeds (DESIGN.md 11.11)
+amend("C03", text="One Lloyd run of KMeansL1L2 (_kmeans_single_lloyd) is verified here for: its only random draw - the initial centres - uses the generator built "
+                  "from the caller's random_state.")
+amend("C13", text="TransformedTargetClassifier2.fit / _apply_transform with an opaque reciprocal transformer: the classifier is trained on the features and the "
+                  "TRANSFORMED labels, predictions go back through the reciprocal transformer.")
+amend("C15", text="SkBaseTransform.fit_transform passes the extra fit arguments on and returns the transform of the same data.")
+amend("C11", text="ExtendedFeatures.fit is also verified starting from stale fitted attributes of another configuration.")
+amend("C05", text="_epsilon is verified for real and for integer targets.")
